@@ -22,6 +22,9 @@
 //!   `(submit job content)`, `(stall job content k)`, `(release)`, `(run job)`; one observation per op:
 //!   `( res ( answer ... ) ( (id present) ... ) ( (path digest) ... ) ntmp )`.
 //!
+//! * leg `docker`: the real `DockerBuilder::clean_container` against a stand-in `docker` (first in PATH) whose one
+//!   container is the list of `docker diff` lines the case gives.
+//!
 //! The case / observation syntax is the `Sx` format of the verification framework (numbers, `#hex` byte
 //! strings, identifiers, parenthesised lists); a small parser is included so that the repository stays
 //! self-contained.
@@ -1088,6 +1091,98 @@ fn fs2_case(case: &Sx) -> Sx {
     w.script(case.arg(1).list())
 }
 
+// ------------------------------------------------------------------ leg docker
+
+/// `sccache-dist __verif_paths fakedocker <dir> <docker args...>`: the `docker` the leg `docker` puts first in
+/// PATH.  One container, kept as the list of its `docker diff` lines in `<dir>/state`:
+/// `diff <cid>` prints them, `exec <cid> /busybox rm -rf <path>` logs the path in `<dir>/rms` and takes away the
+/// added (`A`) lines at and below it, everything else succeeds silently.
+fn fakedocker(args: &[String]) -> i32 {
+    let dir = Path::new(&args[0]);
+    let a: Vec<&str> = args[1..].iter().map(|s| s.as_str()).collect();
+    let state = std::fs::read(dir.join("state")).unwrap_or_default();
+    let lines: Vec<&[u8]> = if state.is_empty() { vec![] } else { state.split(|&c| c == b'\n').collect() };
+    match a.as_slice() {
+        ["diff", _] => {
+            let mut out = std::io::stdout();
+            let _ = out.write_all(&state);
+            let _ = out.write_all(b"\n");
+        }
+        ["exec", _, "/busybox", "rm", "-rf", p] => {
+            let mut log = std::fs::read(dir.join("rms")).unwrap_or_default();
+            log.extend_from_slice(hex(p.as_bytes()).as_bytes());
+            log.push(b'\n');
+            let _ = std::fs::write(dir.join("rms"), log);
+            let keep: Vec<&[u8]> = lines
+                .into_iter()
+                .filter(|l| match l.iter().position(|&c| c == b' ') {
+                    Some(i) => !(&l[..i] == b"A" && path_of(&l[i + 1..]).starts_with(p)),
+                    None => true,
+                })
+                .collect();
+            let _ = std::fs::write(dir.join("state"), keep.join(&b'\n'));
+        }
+        _ => {}
+    }
+    0
+}
+
+/// case = `(#line ...)`: the `docker diff` of a used container.  Runs the real `DockerBuilder::clean_container`
+/// against the stand-in docker: `((rms #path ...) (ok 0|1) (after #line ...))`.
+fn docker_case(dir: &Path, case: &Sx) -> Sx {
+    let lines: Vec<&[u8]> = case.list().iter().map(|l| l.bytes()).collect();
+    let _ = std::fs::write(dir.join("state"), lines.join(&b'\n'));
+    let _ = std::fs::write(dir.join("rms"), b"");
+    let builder = match build::DockerBuilder::new() {
+        Ok(b) => b,
+        Err(e) => return Sx::L(vec![Sx::sym("env_unsupported"), Sx::B(format!("{:#}", e).into_bytes())]),
+    };
+    let ok = match catch(|| build::verif::docker_clean_container(&builder, "c0")) {
+        Ok(Ok(())) => Sx::N(1),
+        Ok(Err(_)) => Sx::N(0),
+        Err(()) => Sx::sym("panic"),
+    };
+    let rms = std::fs::read_to_string(dir.join("rms")).unwrap_or_default();
+    let rms: Vec<Sx> = rms.lines().map(|l| Sx::B(unhex(l))).collect();
+    let state = std::fs::read(dir.join("state")).unwrap_or_default();
+    let after: Vec<Sx> = if state.is_empty() {
+        vec![]
+    } else {
+        state.split(|&c| c == b'\n').map(|l| Sx::B(l.to_vec())).collect()
+    };
+    let mut r = vec![Sx::sym("rms")];
+    r.extend(rms);
+    let mut a = vec![Sx::sym("after")];
+    a.extend(after);
+    Sx::L(vec![Sx::L(r), Sx::L(vec![Sx::sym("ok"), ok]), Sx::L(a)])
+}
+
+/// a directory with the stand-in `docker`, put first in PATH
+fn docker_setup() -> Result<PathBuf, String> {
+    let td = tempfile::Builder::new()
+        .prefix("vp-c19-docker-")
+        .tempdir_in("/dev/shm")
+        .map_err(|e| e.to_string())?;
+    let dir = td.into_path();
+    let exe = std::env::current_exe().map_err(|e| e.to_string())?;
+    let script = dir.join("docker");
+    std::fs::write(
+        &script,
+        format!(
+            "#!/bin/sh\nexec '{}' __verif_paths fakedocker '{}' \"$@\"\n",
+            exe.display(),
+            dir.display()
+        ),
+    )
+    .map_err(|e| e.to_string())?;
+    std::fs::set_permissions(&script, std::fs::Permissions::from_mode(0o755)).map_err(|e| e.to_string())?;
+    let path = std::env::var_os("PATH").unwrap_or_default();
+    let mut parts = vec![dir.clone()];
+    parts.extend(std::env::split_paths(&path));
+    std::env::set_var("PATH", std::env::join_paths(parts).map_err(|e| e.to_string())?);
+    Ok(dir)
+}
+
 // ------------------------------------------------------------------ entry
 
 // ------------------------------------------------------------------ leg tc (C17)
@@ -1307,6 +1402,14 @@ pub fn main(args: &[String]) -> i32 {
     if leg == "fakejob" {
         return fakejob(&args[1..]);
     }
+    if leg == "fakedocker" {
+        return fakedocker(&args[1..]);
+    }
+    if leg == "docker_probe" {
+        println!("docker leg");
+        return 0;
+    }
+    let docker_dir = if leg == "docker" { Some(docker_setup()) } else { None };
     std::panic::set_hook(Box::new(|_| {}));
     let contained = if leg == "probe" || leg == "fs" || leg == "fs2" { contain() } else { Ok(()) };
     if leg == "digest" {
@@ -1346,6 +1449,10 @@ pub fn main(args: &[String]) -> i32 {
             Ok(x) => match leg {
                 "calc" => calc(&x),
                 "tc" => tc_case(&x),
+                "docker" => match docker_dir.as_ref().unwrap() {
+                    Ok(d) => docker_case(d, &x),
+                    Err(e) => Sx::L(vec![Sx::sym("env_unsupported"), Sx::B(e.clone().into_bytes())]),
+                },
                 "fs" => match &contained {
                     Ok(()) => fs_case(&x),
                     Err(e) => Sx::L(vec![Sx::sym("env_unsupported"), Sx::B(e.clone().into_bytes())]),
@@ -1360,6 +1467,9 @@ pub fn main(args: &[String]) -> i32 {
         };
         writeln!(out, "{}", r).unwrap();
         out.flush().unwrap();
+    }
+    if let Some(Ok(d)) = docker_dir {
+        let _ = std::fs::remove_dir_all(d);
     }
     0
 }
